@@ -18,6 +18,9 @@ claims.update({
  "C10": dict(level="other", engine="E2 effects", technique="static analysis: frame + independence + closure rules from E2 summaries and a go/types shape walk (structural necessary conditions only)",
     text="Decides the structural necessary conditions of the history property for every exported operation: writes only to the receiver and fresh memory, pointer results are the receiver or fresh (constructors and Copy: fresh), value-only Element/Scalar/field.Element types, package-level state read-only after init. Breaking any of these breaks some history. The behaviour of histories themselves is the per-operation functional correctness (C01-C09, C13, C14) plus a prose induction, which is not mechanised here.",
     note="Not decided here: per-operation functional correctness and the induction over histories. Trusted: go/ssa, go/types, stdlib effect models.", ref="3 C10"),
+ "C19": dict(level="proof", engine="E5 trace on E1", technique="static analysis: secret-taint + arm-trace equality on an exact-heap abstract interpretation of Multiply (ladder unrolled by constant propagation)",
+    text="Element.Multiply is interpreted abstractly with the scalar secret and the point public-unknown. Every branch whose condition depends on the scalar (256 ladder branches + the documented IsOne shortcut) is found by the analysis itself; both arms are run to the post-dominator and must enter the same sequence of internal/field and internal/scalar functions, nested calls included; secret-dependent indices, loop exits and external calls are violations; generated primitives must be single-block. The verdict covers all scalars because the scalar is a symbol of the analysis.",
+    note="Granularity is function entry in the two internal packages, as the property states; micro-architectural timing is out of scope. Trusted: go/ssa.", ref="3 C19, 2 E5"),
 })
 pending = {}
 ids = ["C%02d" % i for i in range(1, 20)]
